@@ -72,10 +72,11 @@ def targeted_pairs(m, bits, base):
 
 def scalars(bits, seed, tier="thorough"):
     vals = list(range(0, 18))
-    for k in range(0, bits + 1, 8):
+    ws = (1, 2, 3, 4, 5, 6) if tier == "thorough" else (2, 5)
+    for k in range(0, bits + 1, 8 if tier == "thorough" else 16):
         for d in (-1, 0, 1):
             vals.append(2**k + d)
-        for w in (1, 2, 3, 4, 5, 6):
+        for w in ws:
             if k - w > 0:
                 vals += [2**(k - w), 2**(k - w) - 1, 2**(k - w) + 1]
             if k + w < bits:
